@@ -4,10 +4,11 @@
 #include <queue>
 
 struct WsInFrame { bool fin; int rsv; int opcode; bool masked; uint64_t len; std::string payload; int lenenc; };
+enum WsClass { W_NONE = 0, W_TEXT, W_PING, W_PONG, W_CLOSE_OK, W_1002, W_1007, W_1002_OR_1007, W_FRAG, W_BINARY };
 
 struct Input {
 	enum T { MSG, DROP, GONE, TIMER, HS, WSFRAME } t = MSG;
-	int c = -1; std::string text; int fd = -1; WsInFrame wf; std::string why;
+	int c = -1; std::string text; int fd = -1; WsInFrame wf; std::string why; int wscls = 0;
 };
 
 // splits the bytes the daemon has consumed from one connection into protocol units
@@ -35,6 +36,7 @@ struct Client {
 	// oracle state
 	std::deque<Exp> expq; bool faulty = false; bool closing = false; bool no_expect = false;
 	bool hs_sent = false, hs_ok = false;
+	bool ws_in_frag = false; bool close_frame_seen = false; int close_frame_status = 0; bool http_req_complete = false, http_err_seen = false;
 	JV policy = JV::obj();
 	std::map<std::string, std::map<std::string, JV>> replica;  // fetch id (dumped) -> path -> value
 	std::map<std::string, int> replica_state;                   // fetch id -> 0 requested,1 active,2 unfetched
@@ -123,6 +125,9 @@ struct World : KernelHooks, ModelHost {
 	bool feed_next_batch_error();
 	void on_frames(Client &cl, std::vector<Frame> &fr);
 	void on_frame(Client &cl, const Frame &f);
+	void on_ws_close_frame(Client &cl, const Frame &f);
+	int classify_ws(Client &cl, const WsInFrame &wf);
+	bool wsstrict = false;
 	bool try_match(Client &cl, const Frame &f, std::string &why);
 	bool match_close(Client &cl);
 	void after_match(Client &cl, const Exp &e, const Frame &f);
